@@ -1332,3 +1332,128 @@ def _value_destructor_call(call, w, fire, HookedLookup, reg):
 
 
 FAMILIES['reent'] = run_reent
+
+
+# ---------------------------------------------------------------------------
+# family 'preempt': a mutator thread scheduled at the k-th line boundary inside the Python lookup code
+# ---------------------------------------------------------------------------
+# Under the GIL a thread switch can fall between any two bytecodes of *Python* code; the uncached lookups (`_uncached_lookup`,
+# `_lookup`, `_lookupAll`, `_subscriptions`, ...) are Python in both builds.  The schedule "the lookup thread runs up to its k-th line
+# event inside zope/interface/adapter.py, the mutator thread then runs one whole mutator call, the lookup thread resumes" is made
+# deterministic with a trace function: k is the schedule variable.
+
+PE_ENTRY = ['lookup((IR1,), IP)', 'lookupAll((IR1,), IP)', 'subscriptions((IR1,), IP)', 'lookup((IR1, IR1), IP)', "lookup((IR1,), IP, 'n')",
+            'lookupAll((IR1, IR1), IP)', 'subscriptions((IR1, IR1), IP)']
+PE_MUT = ["unregister([IX], IPc, '')  (last registration providing IPc)", "unregister([IR0, IR0], IP, '')  (last registration of arity 2)",
+          "register([IR1], IP, '', 'new')", "unsubscribe([IR1], IPb, 's2')", "subscribe([IR1], IP, 's3')",
+          "unregister([IR0], IPb, '')  (the registration that answers)", "register([IR0], IPb, 'n', 'named')",
+          "unsubscribe([IR0], IP, None)  (every subscriber under that key)",
+          "unsubscribe([IR0, IR0], IP, 's22')  (last subscription of arity 2)"]
+
+
+def run_preempt(program):
+    """program = (flavour, entry, mutation, k).  Returns None when the lookup has fewer than k+1 line events in adapter.py."""
+    import sys
+    (flav, entry, mut, k) = program
+    from zope.interface import Interface
+    from zope.interface import adapter as A
+    from zope.interface.interface import InterfaceClass
+    files = {A.__file__}
+
+    def world():
+        w = {}
+        mod = 'vp_preempt'
+        for nm, bases in (('IR0', ()), ('IR1', ('IR0',)), ('IX', ()), ('IP', ()), ('IPc', ('IP',)), ('IPb', ('IP',))):
+            w[nm] = InterfaceClass(nm, tuple(w[b] for b in bases) or (Interface,), {}, __module__=mod)
+        reg = (A.AdapterRegistry if flav == 0 else A.VerifyingAdapterRegistry)()
+        reg.register([w['IX']], w['IPc'], '', 'Cx')
+        reg.register([w['IR0']], w['IPb'], '', 'B')
+        reg.register([w['IR0'], w['IR0']], w['IP'], '', 'two')
+        reg.subscribe([w['IR0']], w['IP'], 's1')
+        reg.subscribe([w['IR1']], w['IPb'], 's2')
+        reg.subscribe([w['IR0'], w['IR0']], w['IP'], 's22')
+        w['reg'] = reg
+        return w
+
+    def mutate(w):
+        reg = w['reg']
+        m = mut
+        if m == 0:
+            reg.unregister([w['IX']], w['IPc'], '')
+        elif m == 1:
+            reg.unregister([w['IR0'], w['IR0']], w['IP'], '')
+        elif m == 2:
+            reg.register([w['IR1']], w['IP'], '', 'new')
+        elif m == 3:
+            reg.unsubscribe([w['IR1']], w['IPb'], 's2')
+        elif m == 4:
+            reg.subscribe([w['IR1']], w['IP'], 's3')
+        elif m == 5:
+            reg.unregister([w['IR0']], w['IPb'], '')
+        elif m == 6:
+            reg.register([w['IR0']], w['IPb'], 'n', 'named')
+        elif m == 7:
+            reg.unsubscribe([w['IR0']], w['IP'], None)
+        else:
+            reg.unsubscribe([w['IR0'], w['IR0']], w['IP'], 's22')
+
+    def call(w):
+        reg = w['reg']
+        if entry == 0:
+            return reg.lookup((w['IR1'],), w['IP'])
+        if entry == 1:
+            return sorted(list(x) for x in reg.lookupAll((w['IR1'],), w['IP']))
+        if entry == 2:
+            return list(reg.subscriptions((w['IR1'],), w['IP']))
+        if entry == 3:
+            return reg.lookup((w['IR1'], w['IR1']), w['IP'])
+        if entry == 5:
+            return sorted(list(x) for x in reg.lookupAll((w['IR1'], w['IR1']), w['IP']))
+        if entry == 6:
+            return list(reg.subscriptions((w['IR1'], w['IR1']), w['IP']))
+        return reg.lookup((w['IR1'],), w['IP'], 'n')
+    wb = world()
+    before = call(wb)
+    wa = world()
+    mutate(wa)
+    after = call(wa)
+    w = world()
+    state = dict(count=0, fired=False, where=None)
+
+    def local(frame, event, arg):
+        if event == 'line' and not state['fired']:
+            if state['count'] == k:
+                state['fired'] = True
+                state['where'] = '%s:%d' % (frame.f_code.co_name, frame.f_lineno)
+                sys.settrace(None)
+                try:
+                    mutate(w)
+                finally:
+                    sys.settrace(tracer)
+            state['count'] += 1
+        return local
+
+    def tracer(frame, event, arg):
+        if frame.f_code.co_filename in files:
+            return local
+        return None
+    out = dict(before=before, after=after, exception=None, result=None)
+    sys.settrace(tracer)
+    try:
+        try:
+            out['result'] = call(w)
+        except Exception as e:   # noqa
+            out['exception'] = '%s: %s' % (type(e).__name__, str(e)[:100])
+    finally:
+        sys.settrace(None)
+    if not state['fired']:
+        return None
+    out['where'] = state['where']
+    try:
+        out['second'] = call(w)
+    except Exception as e:   # noqa
+        out['second'] = _exc(e)
+    return out
+
+
+FAMILIES['preempt'] = run_preempt
